@@ -1124,8 +1124,20 @@ class WorkflowConductor(object):
             engine_event = events.ENGINE_EVENT_MAP[next_task_id]
             self.update_task_state(next_task_id, next_task_route, engine_event())
 
-        # Mark the task as a terminal task if workflow execution is completed.
-        if self.get_workflow_status() in statuses.COMPLETED_STATUSES:
+        # Mark the task as a terminal task if workflow execution is completed. A workflow that
+        # is paused with nothing left to run completes as soon as it is resumed and there will
+        # be no other task event to mark the last task as the terminal task.
+        workflow_status = self.get_workflow_status()
+
+        completes_on_resume = (
+            workflow_status == statuses.PAUSED
+            and task_state_entry["status"] in statuses.COMPLETED_STATUSES
+            and not self.workflow_state.has_active_tasks
+            and not self.workflow_state.has_staged_tasks
+            and not self.workflow_state.has_paused_tasks
+        )
+
+        if workflow_status in statuses.COMPLETED_STATUSES or completes_on_resume:
             task_state_entry["term"] = True
 
         return task_state_entry
